@@ -8,6 +8,7 @@ import (
 	"time"
 
 	v1 "github.com/fatedier/frp/pkg/config/v1"
+	"github.com/fatedier/frp/pkg/msg"
 
 	"verif/mc/drv"
 	"verif/mc/vs"
@@ -317,6 +318,81 @@ func scHealth(outcomes string, maxFailed int) func(x *vs.Exec) {
 	}
 }
 
+// work: a work connection started for proxy "a" while the proxy is in the given state. Only a running proxy may take
+// it (and must then carry bytes to the backend); in every other state — registration unanswered, refused, proxy
+// withdrawn after a failed health check, proxy removed by a reload — "a stopped proxy accepts no further work
+// connection": the client must close it (the server has a user connection joined to it), and the backend sees nothing.
+func scWork(state string) func(x *vs.Exec) {
+	return func(x *vs.Exec) {
+		var p v1.ProxyConfigurer = cw.TCPProxy("a", 8000, 9000)
+		if state == "unhealthy" {
+			p = cw.WithHealth(cw.TCPProxy("a", 8000, 9000), 10, 3, 1)
+		}
+		w := cw.New(x, cw.Opt{HeartbeatInterval: -1, NoPoolRequests: true, Proxies: []v1.ProxyConfigurer{p}})
+		be := w.StartBackend(8000)
+		switch state {
+		case "waitstart":
+			w.Srv.Reply = func(string, int) cw.ReplyMode { return cw.ReplyNever }
+		case "late":
+			w.Srv.Reply = func(string, int) cw.ReplyMode { return cw.ReplyLate }
+		case "starterr":
+			w.Srv.Reply = func(string, int) cw.ReplyMode { return cw.ReplyError }
+		}
+		// reach the state
+		vs.BlockFor("registration-sent", 30*time.Second, func() bool { return len(w.Srv.EventsOf("newproxy")) > 0 })
+		time.Sleep(2 * time.Second)
+		switch state {
+		case "unhealthy":
+			w.StopBackend(8000)
+			vs.BlockFor("withdrawn", 60*time.Second, func() bool { return len(w.Srv.EventsOf("closeproxy")) > 0 })
+			be = w.StartBackend(8000) // the backend is back, but the next probe has not run yet
+		case "removed":
+			w.Svc.UpdateAllConfigurer(nil, nil)
+			vs.BlockFor("closed-at-server", 30*time.Second, func() bool { return len(w.Srv.EventsOf("closeproxy")) > 0 })
+		}
+		se := w.Srv.LiveSession()
+		if se == nil {
+			vs.Fail("work/%s: no live session", state)
+			return
+		}
+		st, known := w.Svc.StatusExporter().GetProxyStatus("a")
+		running := known && st.Phase == "running"
+		if running != (state == "running") {
+			vs.Observe("work/%s: phase=%v (state not reached, nothing judged)", state, st)
+			w.Svc.Close()
+			return
+		}
+		accepted := be.Accept
+		vs.SetInterest(true)
+		n0 := len(se.Work)
+		w.Srv.SendTo(se, &msg.ReqWorkConn{})
+		if !vs.BlockFor("work-conn", 20*time.Second, func() bool { return len(se.Work) > n0 }) {
+			vs.Fail("work/%s: the client did not open the work connection it was asked for", state)
+			return
+		}
+		wc := se.Work[n0]
+		msg.WriteMsg(wc, &msg.StartWorkConn{ProxyName: "a", SrcAddr: "10.1.1.1", SrcPort: 5555, DstAddr: "127.0.0.1", DstPort: 9000})
+		payload := "bytes-of-the-user"
+		wc.Write([]byte(payload))
+		if state == "running" {
+			if !vs.BlockFor("echo", 20*time.Second, func() bool { return wc.Pending() >= len(payload) || wc.PeerClosed() }) || wc.Pending() < len(payload) {
+				vs.Fail("work/running: a work connection started for a running proxy carried nothing back from the backend within 20 s (closed=%v)", wc.PeerClosed())
+			}
+		} else {
+			if !vs.BlockFor("refused", 20*time.Second, func() bool { return wc.PeerClosed() }) {
+				vs.Fail("work/%s: proxy a is not running (phase %q, known=%v) but the work connection started for it is still open 20 s later: the user connection joined to it at the server is left without a peer", state, st.Phase, known)
+			}
+			if be.Accept != accepted {
+				vs.Fail("work/%s: proxy a is not running (phase %q) but the work connection reached its backend", state, st.Phase)
+			}
+		}
+		vs.SetInterest(false)
+		wc.Close()
+		w.Svc.Close()
+		vs.Observe("work/%s done", state)
+	}
+}
+
 // staleok: the answer to a registration of a stopped proxy arrives while its same-named successor waits for its own answer.
 func scStaleAnswer(x *vs.Exec) {
 	w := cw.New(x, cw.Opt{HeartbeatInterval: -1, NoPoolRequests: true})
@@ -370,6 +446,8 @@ func scenarios() {
 			s.Body = scHealth(f[1], mf)
 		case "staleanswer":
 			s.Body = scStaleAnswer
+		case "work":
+			s.Body = scWork(f[1])
 		default:
 			return nil
 		}
@@ -382,7 +460,7 @@ func main() {
 	if c == nil {
 		return
 	}
-	c.Rule("E1 on the virtual clock, real frpc vs model server: all sequences of <= R configuration sets over {absent, cfg, changed cfg} for two proxies and one stcp visitor, with server reply modes {ok, first answer late, first answer error, first answer missing}; all probe-outcome strings of length <= 5 over {ok, refused, timeout} x maxFailed {1,2,3}; oracle = server-side table equals the configured-and-healthy set with the latest configs after the settle time, unchanged entries untouched, consecutive-failure counting, nothing sent after stop; non-trivial = distinct observation trace")
+	c.Rule("E1 on the virtual clock, real frpc vs model server: all sequences of <= R configuration sets over {absent, cfg, changed cfg} for two proxies and one stcp visitor, with server reply modes {ok, first answer late, first answer error, first answer missing}; all probe-outcome strings of length <= 5 over {ok, refused, timeout} x maxFailed {1,2,3}; oracle = server-side table equals the configured-and-healthy set with the latest configs after the settle time, unchanged entries untouched, consecutive-failure counting, nothing sent after stop; non-trivial = distinct observation trace; a work connection started for a proxy in each state {running, registration unanswered, answer held back, refused, withdrawn after a failed probe, removed by reload}: carried to the backend iff running, otherwise closed by the client within 20 s and never shown to the backend, all schedules with <= 1 deviation")
 	pool := vs.GetPool(c.Workers)
 	var names []string
 	var sets []string
@@ -435,6 +513,10 @@ func main() {
 	}
 	hrec("", drv.Pick(c, 5, 6))
 	names = append(names, "staleanswer")
+	workStates := []string{"running", "waitstart", "late", "starterr", "unhealthy", "removed"}
+	for _, st := range workStates {
+		names = append(names, "work/"+st)
+	}
 	for i := 0; i < len(names); i += 256 {
 		if c.TimeUp() {
 			c.Cap(fmt.Sprintf("enumeration stopped by the budget after %d of %d cases", i, len(names)))
@@ -460,6 +542,9 @@ func main() {
 	c.Note("enumerated_cases", len(names))
 	for _, n := range []string{"reload/1-->---/rapid", "reload/1-->2--/rapid", "reload/11->-1-/rapid"} {
 		c.ExploreBoth(n, 2, 0.2)
+	}
+	for _, st := range workStates {
+		c.ExploreBoth("work/"+st, 1, 0.08)
 	}
 	for _, n := range []string{"reload/11->21-/ok", "reload/1-1>2-2/ok", "reload/11->21-/late", "health/offo/2", "health/ofofo/3"} {
 		c.ExploreBoth(n, 1, 0.25)
